@@ -18,6 +18,8 @@ import (
 	"fmt"
 )
 
+// The input is copied byte by byte: the quote characters are ASCII, and bytes of
+// multi-byte characters must not be re-encoded one by one.
 func DoubleQuotesToBackTick(str string) (string, error) {
 	buffer := bytes.NewBufferString("")
 	for i := 0; i < len(str); i++ {
@@ -25,17 +27,17 @@ func DoubleQuotesToBackTick(str string) (string, error) {
 		switch r {
 		case '\'':
 			{
-				buffer.WriteRune(r)
+				buffer.WriteByte(byte(r))
 				i++
 				r = '0'
 				for ; i < len(str) && r != '\''; i++ {
 					r = rune(str[i])
-					buffer.WriteRune(r)
+					buffer.WriteByte(byte(r))
 					if r == '\\' {
 						if i+1 == len(str) {
 							return "", fmt.Errorf("index out of range")
 						}
-						buffer.WriteRune(rune(str[i+1]))
+						buffer.WriteByte(str[i+1])
 						i++
 					}
 				}
@@ -43,24 +45,24 @@ func DoubleQuotesToBackTick(str string) (string, error) {
 			}
 		case '`':
 			{
-				buffer.WriteRune(r)
+				buffer.WriteByte(byte(r))
 				i++
 				r = '0'
 				for ; i < len(str) && r != '`'; i++ {
 					r = rune(str[i])
-					buffer.WriteRune(r)
+					buffer.WriteByte(byte(r))
 				}
 				i--
 			}
 		case '"':
 			{
-				buffer.WriteRune('`')
+				buffer.WriteByte('`')
 				i++
 				r = '0'
 				for ; i < len(str) && r != '"'; i++ {
 					r = rune(str[i])
 					if r == '"' {
-						buffer.WriteRune('`')
+						buffer.WriteByte('`')
 						continue
 					}
 					if r == '\\' {
@@ -69,19 +71,19 @@ func DoubleQuotesToBackTick(str string) (string, error) {
 						}
 						next := str[i+1]
 						if next == '"' {
-							buffer.WriteRune(rune(next))
+							buffer.WriteByte(next)
 							i++
 							continue
 						}
 					}
-					buffer.WriteRune(r)
+					buffer.WriteByte(byte(r))
 				}
 				i--
 				continue
 			}
 		default:
 			{
-				buffer.WriteRune(r)
+				buffer.WriteByte(byte(r))
 			}
 		}
 	}
